@@ -131,9 +131,21 @@ C12Values(ty) ==
                       \cup (IF Thorough THEN {Tm(c[1], c[2], o) : c \in Clock, o \in {0, 3600}} ELSE {})
 RT(val, p) == [op |-> "roundtrip", val |-> val, p |-> p]
 Hash(p) == Len(p) + (IF Len(p) > 2 THEN (IF p[3] \in {"y", "M", "d", "H", "m"} THEN 1 ELSE 0) ELSE 0)
+\* offsets that need the seconds-capable zone widths (XXXX, XXXXX, xxxx, xxxxx): "same instant with the same offset"
+SubMinuteVals == {Dt(D(2022, 5, 2), 45296, 5, o) : o \in {30, -59, 1, 3661, -45296}}
+ZonePatterns == {<<"y","y","y","y","-","M","M","-","d","d"," ","H","H",":","m","m",":","s","s",".","n","n","n","n","n"," ">> \o zz :
+                   zz \in {Rep("X", 4), Rep("X", 5), Rep("x", 4), Rep("x", 5), Rep("X", 3), Rep("x", 2)}}
+\* one-letter numeric fields followed by characters that are numeric in the Unicode sense but not digits: a non-digit ends the field
+LookalikeSeps == {<<"½">>, <<"Ⅳ">>, <<"²">>, <<"٣">>}
+LookalikePatterns == {a \o sp \o b : a \in {<<"M">>, <<"d">>, <<"D">>, <<"H">>, <<"k">>, <<"m">>, <<"s">>, <<"h">>, <<"K">>, <<"y">>},
+                                      sp \in LookalikeSeps, b \in {<<"y","y","y","y">>, <<"s","s">>, <<>>}}
 C12(z) ==
   UNION {{RT(v, p) : v \in C12Values(ty)} : p \in FullPatterns(z) \cup Full12(z) \cup Pairs(z) \cup Singles, ty \in {"dt"}}
   \cup UNION {{RT(v, p) : v \in C12Values(ty)} : p \in Singles \cup Pairs(z), ty \in {"date", "time"}}
+  \cup (IF First THEN {RT(v, p) : v \in SubMinuteVals, p \in ZonePatterns}
+                      \cup UNION {{RT(v, p) : v \in C12Values(ty) \cup (IF ty = "date" THEN {Dat(D(2023, m, 7)) : m \in 1..12} ELSE {})} :
+                                   p \in LookalikePatterns, ty \in {"dt", "date", "time"}}
+         ELSE {})
 
 \* ---- C13 ----------------------------------------------------------------------------------
 RDates == << <<"0","0","0","1","-","0","1","-","0","1">>, <<"9","9","9","9","-","1","2","-","3","1">>, <<"2","0","2","4","-","0","2","-","2","9">>,
@@ -168,6 +180,8 @@ Feb29 == <<"2","0","2","3","-","0","2","-","2","9","T","0","0",":","0","0",":","
 BadOffs == {<<"-","2","4",":","0","0">>, <<"+","2","4",":","0","0">>, <<"-","2","4",":","0","1">>, <<"-","2","3",":","6","0">>, <<"-","0","0",":","6","0">>, <<"+","9","9",":","0","0">>, <<"-","9","9",":","5","9">>}
 C13(z) ==
   {[op |-> "rfc_read", s |-> s] : s \in {g \in Good(z) : InShard(Len(g))}}
+  \cup {[op |-> "rfc_read", s |-> SubSeq(Base, 1, 19) \o <<".">> \o [i \in 1..n |-> DigitChars[((i * i * k * 7 + k * 13 + i * 3) % 10) + 1]] \o <<"+","0","5",":","3","0">>] :
+          n \in 1..12, k \in {x \in 1..40 : InShard(x)}}
   \cup (IF First THEN {[op |-> "rfc_read", s |-> SubSeq(Base, 1, k) \o o] : k \in {19, 21}, o \in BadOffs} ELSE {})
   \* day 31 of every month (and 29/30 February, day 32, month 0/13, day 0): exists or is out of range
   \cup (IF First THEN {[op |-> "rfc_read", s |-> t] : t \in {<<"2","0","2","3","-","0","1","-","3","1","T","1","2",":","0","0",":","0","0","Z">>, <<"2","0","2","3","-","0","2","-","3","1","T","1","2",":","0","0",":","0","0","Z">>, <<"2","0","2","3","-","0","3","-","3","1","T","1","2",":","0","0",":","0","0","Z">>, <<"2","0","2","3","-","0","4","-","3","1","T","1","2",":","0","0",":","0","0","Z">>, <<"2","0","2","3","-","0","5","-","3","1","T","1","2",":","0","0",":","0","0","Z">>, <<"2","0","2","3","-","0","6","-","3","1","T","1","2",":","0","0",":","0","0","Z">>, <<"2","0","2","3","-","0","7","-","3","1","T","1","2",":","0","0",":","0","0","Z">>, <<"2","0","2","3","-","0","8","-","3","1","T","1","2",":","0","0",":","0","0","Z">>, <<"2","0","2","3","-","0","9","-","3","1","T","1","2",":","0","0",":","0","0","Z">>, <<"2","0","2","3","-","1","0","-","3","1","T","1","2",":","0","0",":","0","0","Z">>, <<"2","0","2","3","-","1","1","-","3","1","T","1","2",":","0","0",":","0","0","Z">>, <<"2","0","2","3","-","1","2","-","3","1","T","1","2",":","0","0",":","0","0","Z">>, <<"2","0","2","4","-","0","2","-","3","1","T","1","2",":","0","0",":","0","0","Z">>, <<"2","0","2","4","-","0","4","-","3","1","T","1","2",":","0","0",":","0","0","Z">>, <<"2","0","2","4","-","0","6","-","3","1","T","1","2",":","0","0",":","0","0","Z">>, <<"2","0","2","4","-","0","9","-","3","1","T","1","2",":","0","0",":","0","0","Z">>, <<"2","0","2","4","-","1","1","-","3","1","T","1","2",":","0","0",":","0","0","Z">>, <<"2","0","2","3","-","0","2","-","2","9","T","1","2",":","0","0",":","0","0","Z">>, <<"2","0","2","3","-","0","2","-","3","0","T","1","2",":","0","0",":","0","0","Z">>, <<"2","0","2","4","-","0","2","-","3","0","T","1","2",":","0","0",":","0","0","Z">>, <<"1","9","0","0","-","0","2","-","2","9","T","1","2",":","0","0",":","0","0","Z">>, <<"2","0","0","0","-","0","2","-","3","0","T","1","2",":","0","0",":","0","0","Z">>, <<"2","0","2","3","-","0","6","-","3","2","T","1","2",":","0","0",":","0","0","Z">>, <<"2","0","2","3","-","1","2","-","3","2","T","1","2",":","0","0",":","0","0","Z">>, <<"2","0","2","3","-","0","0","-","1","0","T","1","2",":","0","0",":","0","0","Z">>, <<"2","0","2","3","-","1","3","-","1","0","T","1","2",":","0","0",":","0","0","Z">>, <<"2","0","2","3","-","0","5","-","0","0","T","1","2",":","0","0",":","0","0","Z">>}} ELSE {})
@@ -214,6 +228,10 @@ C14(z) ==
   \cup {[op |-> "family_long", ty |-> ty, syms |-> Symbols \o <<"Q", "-", "'">>, lens |-> <<255, 256, 65535, 65536, 70001>>] :
           ty \in (IF First THEN {"dt", "date", "time"} ELSE {})}
   \cup (IF First THEN EdgeZoneCases \cup EdgeDateCases ELSE {})
+  \* long tokens of multi-byte characters (1..4 bytes each) where a field value, a name or a step is expected: whatever
+  \* is echoed into an error message must survive any truncation
+  \cup {[op |-> "family_longtok", chars |-> <<"a", "é", "€", "😀", "9">>, lens |-> <<1, 60, 85, 86, 100, 128, 129, 255, 256, 257, 300>>] :
+          x \in (IF First THEN {0} ELSE {})}
   \* field combinations (incl. the same field twice) read from texts whose digits are pushed to 9:
   \* the parsed fields may add up past the end of the day / month / range
   \cup {[op |-> "family_nines", ty |-> ty, p |-> p] : ty \in {"dt", "time", "date"}, p \in Pairs(z)}
@@ -243,6 +261,9 @@ C20(z) ==
           c \in Clock, o \in {0, 60, -60, 3600, -19800, 86340, -86340}}
   \cup {[op |-> "display", val |-> v] : v \in DtValues}
   \cup (IF First THEN C20Malformed ELSE {})
+  \* fractions of 1..12 digits in 40 digit shapes each: read to the nanosecond, cut beyond it
+  \cup {[op |-> "rfc_read", s |-> SubSeq(Base, 1, 19) \o <<".">> \o [i \in 1..n |-> DigitChars[((i * i * k * 7 + k * 13 + i * 3) % 10) + 1]] \o <<"Z">>] :
+          n \in 1..12, k \in {x \in 1..40 : InShard(x)}}
 
 Cases(z) == CASE Which = "C02" -> C02(z) [] Which = "C11" -> C11(z) [] Which = "C12" -> C12(z) [] Which = "C13" -> C13(z) [] Which = "C14" -> C14(z) [] Which = "C20" -> C20(z)
 
